@@ -519,6 +519,16 @@ Qed.
 
 End Presence.
 
+(* a packfile cut strictly inside an object: the reader fails there, the receiver has handled the
+   objects before it and returns an error - nothing of the cut object, nothing after it *)
+Theorem cut_inside_rejected d pack j o :
+  nth_error pack j = Some o ->
+  recv_all d (cut_pack j true pack) = RErr (rstate (recv_all d (firstn j pack))).
+Proof.
+  intros E. unfold cut_pack. rewrite E. rewrite recv_all_app.
+  destruct (recv_all d (firstn j pack)); simpl; auto.
+Qed.
+
 (* every table object of an accepted sequence is usable at the end: blocks, rebuilt block
    indices, table index and profile are there - with NO assumption on the initial store *)
 Theorem received_usable d objs d' :
